@@ -136,3 +136,63 @@ __CPROVER_ensures(g_exc == 0 ==> g_notified == ((g_rr.allocation && self->_optio
     dropped=DROPPED + ['timestamp text of the notification (time/localtime/strftime/fmt)'], trusted=['UnboundedSPSCQueue::prepare_read returns an arbitrary ReadResult here (its own contract is unit UQ.prepare_read)'], min_obligations=20)
 
 UNITS = [rd_unit('bounded'), rd_unit('unbounded'), read_unbounded]
+
+# ------------------------------------------------------------------------ _populate_transit_event_from_frontend_queue (control skeleton)
+PO_PRELUDE = r'''
+typedef uintptr_t addr_t;
+typedef uint8_t LogLevel;  enum { LL_TraceL3, LL_TraceL2, LL_TraceL1, LL_Debug, LL_Info, LL_Notice, LL_Warning, LL_Error, LL_Critical, LL_Backtrace, LL_None, LL_Dynamic };
+typedef uint8_t Event;     enum { EV_Log, EV_InitBacktrace, EV_FlushBacktrace, EV_Flush, EV_LogWithRuntimeMetadata, EV_LoggerRemovalRequest };
+typedef uint8_t ClockSourceType; enum { CS_Tsc, CS_System, CS_User };
+typedef struct MacroMetadata { Event g_event; LogLevel g_level; } MacroMetadata;
+typedef struct LoggerBase { ClockSourceType clock_source; } LoggerBase;
+typedef struct TE { uint64_t timestamp; MacroMetadata* macro_metadata; LoggerBase* logger_base; LogLevel dynamic_log_level; } TE;
+typedef struct TEBs { size_t g_pushed; size_t g_backs; TE slot; } TEBs;
+typedef struct TCx { TEBs* _transit_event_buffer; } TCx;
+typedef struct BW { int dummy; } BW;
+MacroMetadata g_md; LoggerBase g_lg; uint64_t g_raw_ts, g_converted_ts; LogLevel g_level_in_record; size_t g_decodes, g_converts;
+static inline Event MM_event(MacroMetadata* m) { return m->g_event; }
+static inline LogLevel MM_log_level(MacroMetadata* m) { return m->g_level; }
+/* back(): the slot the next event is decoded into (reused: its previous content is arbitrary) */
+static inline TE* TEB_back(TEBs* b) { b->g_backs++; return &b->slot; }
+void TEB_push_back(TEBs* b) __CPROVER_requires(__CPROVER_is_fresh(b, sizeof(*b))) __CPROVER_assigns(b->g_pushed) __CPROVER_ensures(b->g_pushed == OLD(b->g_pushed) + 1);
+/* header slice (unit LG.encode_header fixes the layout): timestamp, metadata, logger */
+static inline void READ_HEADER(addr_t* rp, TE* te) { te->timestamp = g_raw_ts; te->macro_metadata = &g_md; te->logger_base = &g_lg; *rp += 24; }
+void CONVERT_TSC(BW* self, TE* te) __CPROVER_assigns(te->timestamp, g_converts) __CPROVER_ensures(te->timestamp == g_converted_ts && g_converts == OLD(g_converts) + 1);
+/* decoder pointer + arguments + formatting (or flush flag / removal request payload): advances, may throw */
+void DECODE_AND_FORMAT(BW* self, addr_t* rp, TE* te) __CPROVER_requires(__CPROVER_is_fresh(rp, sizeof(*rp))) __CPROVER_assigns(*rp, g_exc, g_decodes)
+__CPROVER_ensures((g_exc == 0 || g_exc == EXC_STD || g_exc == EXC_OTHER) && g_decodes == OLD(g_decodes) + 1 && *rp >= OLD(*rp) + 8 && *rp <= OLD(*rp) + (((addr_t)1) << 33));
+static inline LogLevel READ_LEVEL(addr_t rp) { return g_level_in_record; }
+#define read_pos (*read_pos_p)
+'''
+populate = dict(
+    name='BW.populate', primary='C05', props={'C05', 'C16', 'C03', 'C10'}, kind='S',
+    desc='BackendWorker::_populate_transit_event_from_frontend_queue (control skeleton): admission against ts_now, level tail, push exactly when admitted',
+    structs=[], prelude=PO_PRELUDE, enforce='BW__populate', replace=['TEB_push_back', 'CONVERT_TSC', 'DECODE_AND_FORMAT'],
+    funcs=[dict(src=dict(header=H, cls='BackendWorker', name='_populate_transit_event_from_frontend_queue'), src_params=['read_pos', 'thread_context', 'ts_now'],
+                cfun='BW__populate', sig='bool BW__populate(BW* self, addr_t* read_pos_p, TCx* thread_context, uint64_t ts_now)', ret_default='false',
+                cls_c='BW', member_fields=[], methods={'back': 'TEB_back', 'push_back': 'TEB_push_back', 'event': 'MM_event', 'log_level': 'MM_log_level'},
+                pre_rules=[(r'MacroMetadata::Event::(\w+)', r'EV_\1'), (r'LogLevel::(\w+)', r'LL_\1'), (r'ClockSourceType::(\w+)', r'CS_\1'),
+                           (r'TransitEvent\s*\*\s*transit_event', 'TE* transit_event', 1),
+                           (r'std::memcpy\(&transit_event->timestamp, read_pos.*?read_pos \+= sizeof\(transit_event->logger_base\)\s*;', 'READ_HEADER(&read_pos, transit_event);', 1),
+                           (r'if\s*\(\s*\(\s*__builtin_expect\s*\(\s*\(\s*!_rdtsc_clock\.load.*?time_since_epoch\(transit_event->timestamp\)\s*;', 'CONVERT_TSC(self, transit_event);', 1),
+                           (r'FormatArgsDecoder\s+format_args_decoder\s*;.*?(?=if\s*\(\s*transit_event->macro_metadata->log_level\(\)\s*==\s*LL_Dynamic\s*\))', 'DECODE_AND_FORMAT(self, &read_pos, transit_event);\n', 1),
+                           (r'std::memcpy\(&transit_event->dynamic_log_level, read_pos, sizeof\(transit_event->dynamic_log_level\)\)\s*;', 'transit_event->dynamic_log_level = READ_LEVEL(read_pos);', 1)],
+                exceptions=True, may_throw=['DECODE_AND_FORMAT'],
+                contract=r'''
+__CPROVER_requires(__CPROVER_is_fresh(self, sizeof(*self)) && __CPROVER_is_fresh(read_pos_p, sizeof(addr_t)) && __CPROVER_is_fresh(thread_context, sizeof(TCx)) && __CPROVER_is_fresh(thread_context->_transit_event_buffer, sizeof(TEBs)))
+__CPROVER_requires(g_exc == 0 && *read_pos_p >= 4096 && *read_pos_p <= (((addr_t)1) << 47) && g_md.g_event <= EV_LoggerRemovalRequest && g_md.g_level <= LL_Dynamic && g_lg.clock_source <= CS_User && g_level_in_record <= LL_Dynamic && g_decodes == 0)
+__CPROVER_assigns(*read_pos_p, g_exc, g_decodes, g_converts, thread_context->_transit_event_buffer->g_pushed, thread_context->_transit_event_buffer->g_backs, thread_context->_transit_event_buffer->slot)
+#define SLOT (thread_context->_transit_event_buffer->slot)
+#define EFFECTIVE_TS (g_lg.clock_source == CS_Tsc ? g_converted_ts : g_raw_ts)
+__CPROVER_ensures((g_exc == 0 && RET) ==> (g_lg.clock_source == CS_User || ts_now == UINT64_MAX || EFFECTIVE_TS <= ts_now)) /*@ C05 "a statement is admitted to the backend buffer only if its timestamp is not ahead of the pass's time limit (grace period), unless the clock is user supplied or ordering is disabled" */
+__CPROVER_ensures((g_exc == 0 && !RET) ==> (thread_context->_transit_event_buffer->g_pushed == OLD(thread_context->_transit_event_buffer->g_pushed) && g_decodes == 0)) /*@ C05 "a statement that is ahead of the limit is left in the queue untouched (not decoded, not pushed)" */
+__CPROVER_ensures((g_exc == 0 && !RET) ==> (g_lg.clock_source != CS_User && ts_now != UINT64_MAX && EFFECTIVE_TS > ts_now)) /*@ C03 "a statement is held back only for the ordering reason, never otherwise" */
+__CPROVER_ensures((g_exc == 0 && RET) ==> (thread_context->_transit_event_buffer->g_pushed == OLD(thread_context->_transit_event_buffer->g_pushed) + 1 && *read_pos_p >= OLD(*read_pos_p) + 32 && SLOT.timestamp == EFFECTIVE_TS && SLOT.macro_metadata == &g_md && SLOT.logger_base == &g_lg)) /*@ C03 "an admitted statement is pushed exactly once, with its own header, and its bytes are consumed" */
+__CPROVER_ensures(g_exc != 0 ==> thread_context->_transit_event_buffer->g_pushed == OLD(thread_context->_transit_event_buffer->g_pushed)) /*@ C10 "a record whose decoding throws is not pushed" */
+__CPROVER_ensures((g_exc == 0 && RET && g_md.g_level != LL_Dynamic) ==> SLOT.dynamic_log_level == LL_None) /*@ C16 "a static-level statement never inherits a dynamic level from the reused event slot" */
+__CPROVER_ensures((g_exc == 0 && RET && g_md.g_level == LL_Dynamic) ==> (SLOT.dynamic_log_level == g_level_in_record && *read_pos_p >= OLD(*read_pos_p) + 33)) /*@ C16 "a dynamic-level statement carries exactly the level encoded after its arguments" */
+''')],
+    harness='  BW* s; addr_t* rp; TCx* t; uint64_t ts; BW__populate(s, rp, t, ts);',
+    dropped=['the argument decoding / formatting / named-args section (one stub that advances the read position and may throw; units BW.fmt_msg, CD.*)', 'lazy RdtscClock creation', 'byte addresses as integers; header bytes (layout fixed by LG.encode_header)', 'debug-only digit-count assertion'],
+    trusted=['header slice reads timestamp, metadata and logger (24 bytes) as written by _encode_header'], min_obligations=30)
+UNITS.append(populate)
